@@ -45,6 +45,7 @@ from nemoguardrails.actions.llm.utils import (
     strip_quotes,
 )
 from nemoguardrails.colang import parse_colang_file
+from nemoguardrails.colang.v1_0.runtime.utils import get_dynamic_flow_content
 from nemoguardrails.colang.v2_x.lang.colang_ast import Flow, Spec, SpecOp
 from nemoguardrails.colang.v2_x.runtime.eval import eval_expression
 from nemoguardrails.context import (
@@ -70,6 +71,10 @@ log = logging.getLogger(__name__)
 
 
 local_streaming_handlers = {}
+
+# The maximum number of lines that are considered from a flow generated in multi-step mode.
+# Every attempt to reduce the size of the flow parses it again, so the work must be bounded.
+MAX_MULTI_STEP_FLOW_LINES = 200
 
 
 class LLMGenerationActions:
@@ -671,10 +676,21 @@ class LLMGenerationActions:
                 # Otherwise, we parse the output as a single flow.
                 # If we have a parsing error, we try to reduce size of the flow, potentially
                 # up to a single step.
-                lines = result.split("\n")
+                # We validate exactly what the runtime will parse when it starts the flow,
+                # i.e., the body wrapped in a flow definition with the same id.
+                flow_id = new_uuid()
+                lines = result.split("\n")[:MAX_MULTI_STEP_FLOW_LINES]
                 while True:
                     try:
-                        parse_colang_file("dynamic.co", content="\n".join(lines))
+                        flow_body = "\n".join(lines)
+                        if not flow_body.strip():
+                            raise ValueError("Empty flow body.")
+                        parsed_data = parse_colang_file(
+                            "dynamic.co",
+                            content=get_dynamic_flow_content(flow_id, flow_body),
+                        )
+                        if len(parsed_data["flows"]) != 1:
+                            raise ValueError("Exactly one flow is expected.")
                         break
                     except Exception as e:
                         # If we could not parse the flow on the last line, we return a general response
@@ -696,7 +712,7 @@ class LLMGenerationActions:
                         # We generate a random UUID as the flow_id
                         new_event_dict(
                             "start_flow",
-                            flow_id=new_uuid(),
+                            flow_id=flow_id,
                             flow_body="\n".join(lines),
                         )
                     ]
